@@ -174,3 +174,11 @@ add('FIR',
     *[Rule('X-FIR', '$ts:i.retain(|t| t.pos() %s $n:e);' % op,
            'retain_tags_before(&mut $ts, $n);' if nm == 'lt' else 'retain_tags_%s(&mut $ts, $n);' % nm, stmt_start=True) for op, nm in _CMP],
     Rule('X-FIR', '$ts:i.iter_mut().for_each(|t| t.set_pos(t.pos() / $d:e));', 'div_tag_pos(&mut $ts, $d);', stmt_start=True))
+
+# X-PATH (unit fsink): path generics and the std::fs names
+add('PATH',
+    Rule('X-PATH', 'new<P: AsRef<std::path::Path>>', 'new'),
+    Rule('X-PATH', 'filename: P', 'filename: &PathArg'),
+    Rule('X-PATH', 'std::fs::File::options()', 'File::options()'),
+    Rule('X-PATH', 'std::fs::File::create($p:e)', 'File::create($p)'),
+    Rule('X-PATH', 'BufWriter<std::fs::File>', 'BufWriter'))
